@@ -1,4 +1,5 @@
-use crate::core::Prop;
+use crate::core::{guard, hex_short, Ctx, Prop};
+use alpha_g_detector::padwing::Chunk;
 pub mod c01;
 pub mod c02;
 pub mod c03;
@@ -22,4 +23,39 @@ pub mod c20;
 
 pub fn all() -> Vec<Prop> {
     vec![c01::prop(), c02::prop(), c03::prop(), c04::prop(), c05::prop(), c06::prop(), c07::prop(), c08::prop(), c09::prop(), c10::prop(), c11::prop(), c12::prop(), c13::prop(), c14::prop(), c15::prop(), c16::prop(), c17::prop(), c18::prop(), c19::prop(), c20::prop()]
+}
+
+/// Decode a chunk that the harness built with its own encoder. If the library rejects (or panics on) bytes that the
+/// reference decoder accepts, that is a violation to report, not a reason for the harness to fall over.
+pub fn lib_chunk(ctx: &mut Ctx, bytes: &[u8]) -> Option<Chunk> {
+    match guard(|| Chunk::try_from(bytes)) {
+        Ok(Ok(c)) => Some(c),
+        Ok(Err(e)) => {
+            assert!(crate::refs::chunk_ref(bytes).is_some(), "harness bug: built a chunk its own reference decoder rejects");
+            ctx.violation("well-formed chunk rejected", format!("the library rejects a chunk the reference decoder accepts: {}", e), serde_json::json!({"bytes": hex_short(bytes)}));
+            None
+        }
+        Err(p) => {
+            ctx.panic_violation("Chunk::try_from", &p, serde_json::json!({"bytes": hex_short(bytes)}));
+            None
+        }
+    }
+}
+
+pub const LIB_REJECTS: &str = "LIBRARY-REJECTS-VALID-INPUT";
+/// Like `lib_chunk` for call sites without a context: panics with a marked message that `child_main` turns into a
+/// violation (the rest of that shard's cases are then skipped).
+pub fn must_chunk(bytes: &[u8]) -> Chunk {
+    match guard(|| Chunk::try_from(bytes)) {
+        Ok(Ok(c)) => c,
+        other => {
+            assert!(crate::refs::chunk_ref(bytes).is_some(), "harness bug: built a chunk its own reference decoder rejects");
+            let why = match other {
+                Ok(Err(e)) => format!("rejected: {}", e),
+                Err(p) => format!("panicked: {} ({})", p.message, p.location),
+                _ => unreachable!(),
+            };
+            panic!("{}: the library does not decode a chunk that the reference decoder accepts ({}); bytes {}", LIB_REJECTS, why, hex_short(bytes))
+        }
+    }
 }
